@@ -71,6 +71,11 @@ type clientState struct {
 
 // Run executes one Case.
 type Run struct {
+	// swFlushing: StreamWriter.Flush is running. Flush calls readTs() on the oracle it has
+	// just stopped (a Begin nobody will ever process or match); those marks are not the new
+	// oracle's and are ignored by the watermark invariant.
+	swFlushing bool
+	swst *swState // StreamWriter scenario state (C26)
 	c        *Case
 	prof     *Profile
 	e        *Engine
@@ -322,6 +327,10 @@ func (r *Run) onEvent(gid int64, kind string, a, b uint64, key, val []byte) {
 		}
 	case "wm.begin":
 		r.mu.Lock()
+		if r.swFlushing {
+			r.mu.Unlock()
+			break
+		}
 		w := r.wm(string(key))
 		w.open[a]++
 		w.begun[a] = true
@@ -407,6 +416,23 @@ func (r *Run) onEvent(gid int64, kind string, a, b uint64, key, val []byte) {
 		r.mu.Lock()
 		r.compactions++
 		r.mu.Unlock()
+	case "compact.l0l0":
+		// reach of the L0->L0 picker: how many idle, old-enough tables worker 0 found
+		r.probe("l0l0_attempts")
+		switch {
+		case a >= 4:
+			r.probe("l0l0_attempts_with_4plus_eligible")
+		case a >= 2:
+			r.probe("l0l0_attempts_with_2to3_eligible")
+		}
+		if b&0xffff >= 5 {
+			r.probe("l0l0_attempts_with_5plus_L0_tables")
+			r.pmu.Lock()
+			r.stats.Probes["l0l0_excluded_young"] += b >> 16 & 0xffff
+			r.stats.Probes["l0l0_excluded_busy"] += b >> 32 & 0xffff
+			r.stats.Probes["l0l0_excluded_big"] += b >> 48
+			r.pmu.Unlock()
+		}
 	case "l0.stall":
 		r.probe("l0_stall_poll")
 		if os.Getenv("VERIF_DEBUG_STALL") != "" {
@@ -1508,6 +1534,18 @@ func (r *Run) bubble() {
 			return
 		}
 		r.stats.Probes["prefill_steps"] = e.Steps
+		if os.Getenv("VERIF_DEBUG_LAYOUT") != "" {
+			for _, t := range r.db.Tables() {
+				fmt.Fprintf(os.Stderr, "LAYOUT table %d L%d [%q .. %q] keys=%d\n", t.ID, t.Level, y.ParseKey(t.Left), y.ParseKey(t.Right), t.KeyCount)
+			}
+			fmt.Fprintf(os.Stderr, "LAYOUT cfg l0_tables=%d l0_stall=%d memtable=%d prefill=%d clustered=%v compactors=%d\n", r.c.Cfg.L0Tables, r.c.Cfg.L0Stall, r.c.Cfg.MemTableSize, r.c.Cfg.Prefill, r.c.Cfg.PrefillClustered, r.c.Cfg.NumCompactors)
+		}
+		if r.c.Cfg.PrefillAgeS > 0 {
+			// let the pre-filled tables age (the L0->L0 picker ignores tables younger
+			// than 10 s, the last-level rewrite those younger than an hour)
+			e.sleep(time.Duration(r.c.Cfg.PrefillAgeS) * time.Second)
+			synctest.Wait()
+		}
 		e.Sequential = false
 		e.SetGroups(r.c.Cfg.Groups)
 	}
@@ -1694,9 +1732,27 @@ func (r *Run) prefill() {
 	segLeft := 0
 	var seg [][]byte
 	var written int64
+	// Half of the clustered pre-fills start with two single-key stretches, each long
+	// enough to fill a memtable: the two oldest L0 tables are then narrow and disjoint,
+	// so an L0->Lbase compaction takes only the first and leaves the rest of L0 idle
+	// (what the L0->L0 picker and non-prefix pick orders need).
+	narrowHead := 0
+	if cfg.PrefillClustered && prng.Intn(2) == 0 && len(sorted) >= 2 {
+		narrowHead = 2
+	}
+	perTable := int(cfg.MemTableSize/int64(vsz+48)) + 2
 	for i := 0; written < target && i < 3000; i++ {
 		key := fillKeys[i%len(fillKeys)]
 		if cfg.PrefillClustered {
+			if segLeft == 0 && narrowHead > 0 {
+				lo := prng.Intn(len(sorted))
+				if narrowHead == 1 && bytes.Equal(sorted[lo], seg[0]) {
+					lo = (lo + 1) % len(sorted)
+				}
+				seg = sorted[lo : lo+1]
+				segLeft = perTable
+				narrowHead--
+			}
 			if segLeft == 0 {
 				lo := prng.Intn(len(sorted))
 				hi := lo + 1 + prng.Intn(3)
